@@ -3,6 +3,7 @@ package an
 import (
 	"fmt"
 	"go/token"
+	"regexp"
 	"sort"
 	"strings"
 
@@ -173,7 +174,20 @@ func splitPos(p string) (string, int) {
 
 // KeyOf builds a construct key from a function and an expression text.
 func KeyOf(fn *ssa.Function, expr string) string {
-	return FuncName(fn) + "|" + expr
+	return FuncName(fn) + "|" + StripVolatile(expr)
+}
+
+var (
+	reVersion = regexp.MustCompile(`\|[b0-9i.,;]*\)`)
+	reInstrID = regexp.MustCompile(`#?b[0-9]+i[0-9]+(\.[0-9]+)?`)
+)
+
+// StripVolatile removes memory versions and instruction ids from a rendered
+// term, so that keys do not change when unrelated code moves.
+func StripVolatile(s string) string {
+	s = reVersion.ReplaceAllString(s, ")")
+	s = reInstrID.ReplaceAllString(s, "")
+	return s
 }
 
 // PropertyCheck is the implementation of one property's rules.
